@@ -165,6 +165,11 @@ def ml_shapes(rng, n):
                 txt = ('require "reject";' + eol + "reject " + head + eol + "first" + eol + x + eol + "; reject text:" + eol
                        + "no thanks" + eol + "." + eol + "; keep;" + eol)
                 out.append(txt.encode("utf-8"))
+    # quoted strings that hold line breaks themselves (legal: a quoted string may span lines)
+    for eol in ("\n", "\r\n"):
+        for a, b in (("two" + eol + "lines", "reason" + eol + "more" + eol), (eol, "x" + eol + eol + "y"), ("a", eol + "b")):
+            out.append(('require "vacation";' + eol + 'vacation :subject "' + a + '" "' + b + '";' + eol
+                        + 'if header :is "s" ["' + b + '", "' + a + '"] { keep; }' + eol).encode("utf-8"))
     for _ in range(n):
         eol = rng.choice(["\n", "\r\n"])
         def ml():
@@ -358,15 +363,22 @@ def driver(prop, tier, seed, devs):
         out["machinery"].append("SieveTrace returned no verdict for %d traces" % cnt["missing"])
     k, v = classify(recs, prop, devs, "generated")
     merge(out, k, v)
-    if prop == "C02":
-        # parse_file: the same totality on files (and the same outcome as parse() on the bytes)
+    if prop in ("C02", "C03"):
+        # parse_file: the same totality on files (and the same outcome -- for C03 the same tree -- as parse() on the bytes)
         import tempfile
         from . import sieve_impl as I
         pf = I.new_parser()
         pp = I.new_parser()
         nfile = 0
         with tempfile.TemporaryDirectory(dir=os.path.join(VERIF, "build")) as td:
-            for j, data in enumerate(batch[:: max(1, len(batch) // (150 if tier == "quick" else 3000))]):
+            sample = batch[:: max(1, len(batch) // (150 if tier == "quick" else 3000))]
+            if prop == "C03":
+                crs = [b for b in batch if b"\r" in b]
+                # those with a line break inside a quoted string first, then a stride over the rest
+                import re as _re2
+                inq = [b for b in crs if _re2.search(rb'"[^"\\]*\r', b)]
+                sample = inq[:200] + crs[:: max(1, len(crs) // (300 if tier == "quick" else 4000))] + sample[:40]
+            for j, data in enumerate(sample):
                 path = os.path.join(td, "s%d.sieve" % j)
                 with open(path, "wb") as fp:
                     fp.write(data)
@@ -379,10 +391,19 @@ def driver(prop, tier, seed, devs):
                 want = ("ret", o1["verdict"], o1["error"] if o1["verdict"] is False else None) if o1["cls"] == "ret" else None
                 if o1["cls"] == "hang" and o2[0] == "hang":
                     continue            # already reported by the parse() judgement of the same bytes
-                if o2[0] != "ret" or (want is not None and o2 != want):
+                if prop == "C02" and (o2[0] != "ret" or (want is not None and o2 != want)):
                     out["viols"].append(("parse_file", {"text": data.decode("utf-8", "replace"), "expl": None, "ref": [],
                                                         "failed": {"C02": "parse_file gave %r, parse() on the same bytes %r" % (o2, want)},
                                                         "obs": {}}))
+                if prop == "C03" and o1["cls"] == "ret" and o1["verdict"] is True and g[0] == "ret" and g[1] is True:
+                    try:
+                        t2 = [I.project(c) for c in pf.result]
+                    except Exception as e:  # noqa
+                        t2 = ["!projection failed", str(e)[:60]]
+                    if t2 != o1["tree"]:
+                        out["viols"].append(("parse_file", {"text": data.decode("utf-8", "replace"), "expl": None, "ref": [],
+                                                            "failed": {"C03": "parse_file builds another tree than parse() on the same bytes (which agrees with the reference)"},
+                                                            "obs": {}}))
         out["parses"] += nfile
         out["coverage"]["parse_file_cases"] = nfile
     if prop == "C04":
